@@ -1,1 +1,2 @@
 pub mod rat;
+pub mod sem;
